@@ -80,7 +80,12 @@ class PopenSpawn(SpawnBase):
             timeout = 1e6
 
         t0 = time.time()
-        while (time.time() - t0) < timeout and size and len(buf) < size:
+        polled = False
+        # Always look at the queue once, so that timeout=0 still returns
+        # whatever the reader thread has already delivered.
+        while ((not polled or (time.time() - t0) < timeout)
+               and size and len(buf) < size):
+            polled = True
             try:
                 incoming = self._read_queue.get_nowait()
             except Empty:
